@@ -72,7 +72,7 @@ QUICK_SKIP = {'B2AB_O', 'B2AOB'}     # three species x 6 interstitial sites: the
 
 
 def all_names(tier='thorough'):
-    return [n for n in list(catalog.CAT) + list(EXTRA) if not (tier == 'quick' and n in QUICK_SKIP)]
+    return [n for n in catalog.names() + list(EXTRA) if not (tier == 'quick' and n in QUICK_SKIP)]
 
 
 def build(name, mk):
